@@ -186,3 +186,28 @@ def _havoc_gen(i, v, name, node):
     if isinstance(v, (GenTok, SeedSeqV)):
         return True  # generator state is not tracked: every draw is already an arbitrary admissible outcome
     return NotImplemented
+
+
+SS_state = z3.Function("generate_state", SeedSeq, Int, Int, Int)  # (seed sequence, n_words, index)
+
+
+class GenStateV:
+    def __init__(self, ss, n):
+        self.ss, self.n = ss, n
+
+
+@hook("getattr")
+def _ss_generate_state(i, v, name, node, fr):
+    if isinstance(v, SeedSeqV) and name == "generate_state":
+        return BoundMethod(v, lambda interp, s, a, k, n, f: GenStateV(s.term, a[0]))
+    return NotImplemented
+
+
+@hook("getitem")
+def _gs_item(i, v, idx_, node):
+    if isinstance(v, GenStateV):
+        return SS_state(v.ss, to_z3(v.n, Int), to_z3(idx_, Int))
+    return NotImplemented
+
+
+TRUSTED["numpy.random.SeedSequence.generate_state"] = "generate_state(n)[k] is a function of (entropy, n, k)"
